@@ -2,26 +2,38 @@
 
 A case is a whole history on one container configuration (see harness.cpp for the format)."""
 import itertools
+import os
 
 ID = "C09"
 LEVEL = "proof"
-HARNESSES = [{"name": "main", "src": "harness.cpp", "flags": ["-O1", "-DTETL_ENABLE_CONTRACT_CHECKS=1"]}]
+# pcxx.py compiles harness.cpp as four translation units in parallel (one comparator each) and links them
+HARNESSES = [{"name": "main", "src": "harness.cpp", "compiler": os.path.join(os.path.dirname(os.path.abspath(__file__)), "pcxx.py"),
+              "flags": ["-O1", "-DTETL_ENABLE_CONTRACT_CHECKS=1"]}]
 
 RULE = ("a case = one history on one configuration (static_set / flat_set over static_vector / flat_set over an "
         "inplace_vector adaptor, element int; static_set / flat_set over static_vector with a tracked non-trivial "
         "element type that counts live objects and flags uses of moved-from or destroyed values; comparators less, "
         "greater, transparent less<> with heterogeneous point and band keys, half (equivalence coarser than equality); "
-        "capacity 1, 2, 3, 4, 5, 8), keys 0..5 (-3..8 in the random part). Exhaustive part: from every set "
+        "capacity 0, 1, 2, 3, 4, 8), keys 0..5 (-3..8 in the random part). Exhaustive part: from every set "
         "reachable at capacity 3 and 4 (every subset of the key universe of size <= capacity, built by inserting its "
-        "elements in ascending and in descending order) every sequence of <= 2 further calls (quick; <= 3 thorough) from "
-        "the full call alphabet (insert/emplace/hinted insert of every key, erase of every key, every position incl. "
+        "elements in ascending and in descending order) every sequence of <= 2 further calls (<= 3 for the nearly full static_set in thorough) from "
+        "the full call alphabet (pairs sampled in quick, see the end) (insert/emplace/hinted insert of every key, erase of every key, every position incl. "
         "end and one past, every index pair, clear, swap, copy assignment, extract, replace, range insert, assignment "
         "from a container / a random-access range / a forward-iterator range / sorted_unique container and iterator "
         "pair, erase_if), followed by every lookup for every key, a walk through every iterator flavour and a "
-        "key_comp/value_comp table; all histories of depth <= 4 (quick; 5 thorough) from the empty set over insert/"
-        "erase-key/clear/swap; seeded random histories up to length 14 at capacity 1, 2, 5, 8; flat_multiset "
-        "construction from every sequence of length <= 4 over 0..3 plus random longer ones. non-trivial = distinct "
-        "case line whose history reaches a non-empty set")
+        "key_comp/value_comp table; all histories of depth <= 3 (quick; 4 thorough) from the empty set over insert/"
+        "erase-key/clear/swap; at capacity 0 (empty and full at once; zero-size storage) every call and pair of calls; "
+        "seeded random histories up to length 14 at capacity 1 and 8 (2 and 8 with the stored comparator); flat_multiset "
+        "construction from every sequence of length <= 4 over 0..3 plus random longer ones; flat_set with a STORED "
+        "run-time comparator (s constructed ascending, t descending; swap / copy assignment / assigning constructors "
+        "change the order of the current set): from every reachable set, after five swap/copy preambles, every call. "
+        "QUICK tier = the boundary-aimed core (about 150k cases): every reachable set x every single call for the "
+        "configurations of QUICK_PLAN, a seeded sample of the call pairs (15% for static_set<less>, 5% for "
+        "static_set<half> and flat_set<less>, 0.5% elsewhere), depth <= 3 histories (+10% of depth 4), 100 random "
+        "histories per configuration; THOROUGH tier (about 1M cases) = all configurations x capacity 3 and 4, both build orders, all pairs for "
+        "static_set<less/half> and flat_set<less> at capacity 3 and 3% of the pairs elsewhere, triples from the nearly full "
+        "static_set<less>, depth <= 4 histories (+10% of depth 5), 2000 random histories per configuration. non-trivial = distinct case line whose history reaches a "
+        "non-empty set")
 
 TRUSTED_BASE = ["reference leg: libstdc++ 12 std::set / std::multiset with the same comparator, bounded by the capacity "
                 "in the harness (a new key into a full set: failure reported, set unchanged)"]
@@ -84,6 +96,34 @@ def order_for(cmp, ks):
     return sorted(ks)
 
 
+def reach_prefixes(cap, with_desc):
+    """every set reachable at this capacity as the insert sequence that builds it (ascending; and
+    descending, which drives every insert through the rotate-to-front path)"""
+    res = []
+    for size in range(0, cap + 1):
+        for sub in itertools.combinations(KEYS, size):
+            asc = " ".join(f"i {k}" for k in sub)
+            res.append((asc, True))
+            if with_desc and size >= 2:
+                res.append((" ".join(f"i {k}" for k in reversed(sub)), False))
+    return res
+
+
+# quick tier: which (family, comparator, capacity) get the every-reachable-set x every-call enumeration,
+# whether the descending build order is included, and the sampled fraction of the call PAIRS.
+# thorough tier: every family x comparator x capacity 3 and 4, both build orders, all pairs.
+QUICK_PLAN = {
+    ("ss", "less", 3): (True, 0.15), ("ss", "half", 3): (True, 0.05), ("ss", "greater", 3): (True, 0.005),
+    ("ss", "tless", 3): (True, 0.005), ("ss", "less", 4): (False, 0.005), ("ss", "half", 4): (False, 0.005),
+    ("fsv", "less", 3): (True, 0.05), ("fsv", "half", 3): (True, 0.005), ("fsv", "greater", 3): (True, 0.005),
+    ("fsv", "tless", 3): (True, 0.005), ("fsv", "less", 4): (False, 0.005),
+    ("fip", "less", 3): (True, 0.005), ("fip", "half", 3): (True, 0.005), ("fip", "greater", 3): (False, 0.005),
+    ("fip", "tless", 3): (False, 0.005),
+    ("sst", "less", 3): (True, 0.005), ("sst", "half", 3): (True, 0.005), ("sst", "tless", 3): (True, 0.005),
+    ("fst", "less", 3): (True, 0.005), ("fst", "half", 3): (True, 0.005), ("fst", "tless", 3): (True, 0.005),
+}
+
+
 def gen(tier, rng):
     quick = tier == "quick"
     out = []
@@ -95,85 +135,103 @@ def gen(tier, rng):
         for _ in range(60 if quick else 2000):
             n = rng.randint(5, 9)
             out.append(f"fms_{cmp} " + lst([rng.randint(0, 5) for _ in range(n)]))
-    # --- 2. from every reachable set, every short continuation
-    #     second level: complete for FULL2 configurations, a seeded sample of the pairs elsewhere
-    full2 = {("ss", "less", 3), ("ss", "half", 3), ("fsv", "less", 3)}
-    for fam in FAMS:
-        for cmp in CMPS:
-            for cap in (3, 4):
-                alpha = alphabet(fam, cap)
-                small = alphabet(fam, cap, full=False)
-                frac = 1.0 if (not quick or (fam, cmp, cap) in full2) else 0.04
-                for size in range(0, cap + 1):
-                    for sub in itertools.combinations(KEYS, size):
-                        asc = " ".join(f"i {k}" for k in sub)
-                        desc = " ".join(f"i {k}" for k in reversed(sub))
-                        prefixes = [asc] if size < 2 else [asc, desc]
-                        for pi, pre in enumerate(prefixes):
-                            head = f"{fam}_{cmp} {cap} {pre}".rstrip()
-                            out.append(head)
-                            for o1 in alpha:
-                                out.append(f"{head} {o1}")
-                            if pi != 0:
-                                continue
-                            for o1 in alpha:
-                                for o2 in alpha:
-                                    if frac >= 1.0 or rng.random() < frac:
-                                        out.append(f"{head} {o1} {o2}")
-                            if not quick and size >= cap - 1 and cmp in ("less", "half"):
-                                for seq in itertools.product(small, repeat=3):
-                                    out.append(f"{head} " + " ".join(seq))
-    # --- 2b. the tracked element type: from every reachable set every single call (and a sample of the pairs)
-    for fam in TRACKED:
-        for cmp in CMPS:
-            for cap in (3, 4):
-                if quick and cap == 4 and cmp != "less":
-                    continue
-                alpha = alphabet(fam, cap)
-                frac = 0.01 if quick else 1.0
-                for size in range(0, cap + 1):
-                    for sub in itertools.combinations(KEYS, size):
-                        asc = " ".join(f"i {k}" for k in sub)
-                        desc = " ".join(f"i {k}" for k in reversed(sub))
-                        for pi, pre in enumerate([asc] if size < 2 else [asc, desc]):
-                            head = f"{fam}_{cmp} {cap} {pre}".rstrip()
-                            out.append(head)
-                            for o1 in alpha:
-                                out.append(f"{head} {o1}")
-                            if pi != 0:
-                                continue
-                            for o1 in alpha:
-                                for o2 in alpha:
-                                    if frac >= 1.0 or rng.random() < frac:
-                                        out.append(f"{head} {o1} {o2}")
-    # --- 3. all histories from the empty set over the core alphabet
+    # --- 2. from every reachable set every call of the alphabet, then (sampled in quick) every pair of calls
     for fam in FAMS + TRACKED:
         for cmp in CMPS:
-            if quick and not (fam == "ss" or cmp == "less"):
+            for cap in (3, 4):
+                if quick:
+                    if (fam, cmp, cap) not in QUICK_PLAN:
+                        continue
+                    with_desc, frac = QUICK_PLAN[(fam, cmp, cap)]
+                else:
+                    # thorough: all pairs where the quick tier samples 5% or more, 10% elsewhere
+                    with_desc = True
+                    frac = 1.0 if QUICK_PLAN.get((fam, cmp, cap), (True, 0.0))[1] >= 0.05 else 0.03
+                alpha = alphabet(fam, cap)
+                small = alphabet(fam, cap, full=False)
+                for pre, first in reach_prefixes(cap, with_desc):
+                    head = f"{fam}_{cmp} {cap} {pre}".rstrip()
+                    out.append(head)
+                    for o1 in alpha:
+                        out.append(f"{head} {o1}")
+                    if not first:
+                        continue
+                    for o1 in alpha:
+                        for o2 in alpha:
+                            if frac >= 1.0 or rng.random() < frac:
+                                out.append(f"{head} {o1} {o2}")
+                    size = 0 if not pre else len(pre.split()) // 2
+                    if not quick and fam == "ss" and cap == 3 and size >= cap - 1 and cmp == "less":
+                        for seq in itertools.product(small, repeat=3):
+                            out.append(f"{head} " + " ".join(seq))
+    # --- 2c. capacity 0 (static_vector's zero-size storage class): the set is empty AND full
+    for fam in FAMS:
+        for cmp in CMPS:
+            alpha = alphabet(fam, 0)
+            head = f"{fam}_{cmp} 0"
+            out.append(head)
+            for o1 in alpha:
+                out.append(f"{head} {o1}")
+                if cmp == "less" or not quick:
+                    for o2 in alpha:
+                        out.append(f"{head} {o1} {o2}")
+    # --- 3. all histories from the empty set over the core alphabet (insert / erase of every key, clear, swap)
+    for fam in FAMS + TRACKED:
+        for cmp in CMPS:
+            if not (fam == "ss" or cmp == "less"):
                 continue
             cap = 3
             small = alphabet(fam, cap, full=False)
-            maxd = 4 if quick else 5
-            if quick and not (fam == "ss" and cmp in ("less", "half")):
-                maxd = 3
+            maxd = 3 if quick else 4
             for d in range(1, maxd + 1):
                 for seq in itertools.product(small, repeat=d):
                     out.append(f"{fam}_{cmp} {cap} " + " ".join(seq))
-    # --- 4. seeded random longer histories, capacities 1, 2, 5 and 8, keys -3..8
+            if fam == "ss" and cmp in ("less", "half"):
+                # one level deeper, sampled: depth 4 at 10% (quick), depth 5 at 10% (thorough)
+                for seq in itertools.product(small, repeat=maxd + 1):
+                    if rng.random() < 0.1:
+                        out.append(f"{fam}_{cmp} {cap} " + " ".join(seq))
+    # --- 4. seeded random longer histories, capacities 1 and 8, keys -3..8
     for fam in FAMS + TRACKED:
         for cmp in CMPS:
-            for cap in (1, 2, 5, 8):
+            for cap in ((1, 8) if fam in FAMS else (8,)):
                 alpha = alphabet(fam, cap)
                 for k in list(range(-3, 0)) + [6, 7, 8]:
                     alpha += [f"i {k}", f"ek {k}", f"e {k}"]
                 alpha += ["asi " + lst([8, -1, 3, -1, 0, 7, 2, 6, 5, -3]), "ir " + lst([7, -2, 7, 1, 6])]
                 ins = [a for a in alpha if a.startswith(("i ", "e ", "ih "))]
-                for _ in range(100 if quick else 4000):
+                for _ in range(100 if quick else 2000):
                     n = rng.randint(3, 14)
                     seq = []
                     for _ in range(n):
                         seq.append(rng.choice(ins) if rng.random() < 0.55 else rng.choice(alpha))
                     out.append(f"{fam}_{cmp} {cap} " + " ".join(seq))
+    # --- 5. flat_set with a STORED comparator: s is constructed ascending, t descending; swap, copy assignment
+    #        and the assigning constructors change which comparator orders the current set
+    for cap in (3, 4):
+        alpha = alphabet("fsd", cap)
+        for pre, first in reach_prefixes(cap, cap == 3):
+            for mid in ("", "sw", "sw i 4 i 1 sw", "sw i 2 i 5 i 0 sw cp", "sw i 3 cp"):
+                if quick and mid not in (("sw", "sw i 2 i 5 i 0 sw cp", "sw i 3 cp") if cap == 3 else ("sw",)):
+                    continue
+                head = f"fsd_dyn {cap} {pre} {mid}".replace("  ", " ").rstrip()
+                out.append(head)
+                for o1 in alpha:
+                    if quick and not first and rng.random() < 0.5:
+                        continue
+                    out.append(f"{head} {o1}")
+    for cap in (2, 8):
+        alpha = alphabet("fsd", cap)
+        for k in list(range(-3, 0)) + [6, 7, 8]:
+            alpha += [f"i {k}", f"ek {k}"]
+        ins = [a for a in alpha if a.startswith(("i ", "e ", "ih "))]
+        for _ in range(150 if quick else 4000):
+            n = rng.randint(3, 14)
+            seq = []
+            for _ in range(n):
+                r = rng.random()
+                seq.append(rng.choice(ins) if r < 0.45 else ("sw" if r < 0.55 else ("cp" if r < 0.6 else rng.choice(alpha))))
+            out.append(f"fsd_dyn {cap} " + " ".join(seq))
     return out
 
 
